@@ -1,5 +1,10 @@
 """subprocess worker for C17: runs one scoring case on fresh objects and prints the score bytes.
-usage: worker.py <workdir>   (case JSON on stdin)"""
+usage: worker.py <workdir>   (case JSON on stdin)
+
+A case may carry a `history`: other scoring cases that are run first IN THE SAME PROCESS (their results are discarded); the target case must score the
+same whatever ran before it.  Around every fit and every score call (target and history) the process-global state that scoring has no business changing
+(props.common.global_state: numpy's floating-point error mode and callback, warnings.filters, os.environ) is snapshotted; a change is appended to
+STATE_CHANGES as {call, case, changed}; LOG lists what was scored in this process so far."""
 import json
 import os
 import sys
@@ -8,15 +13,28 @@ import random
 HERE = os.path.dirname(os.path.abspath(__file__))
 sys.path.insert(0, HERE)
 
+STATE_CHANGES = []
+LOG = []          # one line per scoring run in this process, in order (what ran before a given scoring)
+
 
 def build_and_score(I, case):
+    """(score bytes as hex, recorded permutations) of `case` scored on fresh objects, after the optional re-seeding of the global generators (`scramble`)
+    and after the optional `history` of other scorings in this process"""
     import numpy as np
-    from sklearn.neighbors import KNeighborsClassifier
-    from sklearn.linear_model import LogisticRegression
     if case.get("scramble") is not None:
         np.random.seed(case["scramble"])
         random.seed(case["scramble"])
         np.random.rand(case["scramble"] % 7 + 1)
+    for h in case.get("history") or []:
+        score_one(I, h)
+    return score_one(I, {k: v for k, v in case.items() if k not in ("history", "scramble")})
+
+
+def score_one(I, case):
+    import numpy as np
+    from sklearn.neighbors import KNeighborsClassifier
+    from sklearn.linear_model import LogisticRegression
+    from props.common import global_state, global_state_diff
     X = np.array(case["X"], dtype=float)
     y = np.array(case["y"])
     Xv = np.array(case["Xv"], dtype=float)
@@ -48,10 +66,15 @@ def build_and_score(I, case):
     elif case["model"] == "rforest":
         from sklearn.ensemble import RandomForestClassifier
         model = RandomForestClassifier(n_estimators=3, max_depth=2)
+    elif case["model"] == "gnb":
+        # warning-sensitive: on a coalition of a single row (or of identical rows) the fitted variances are 0 and predicting emits numpy RuntimeWarnings
+        # (log(0), 0/0), which the library turns into a failed evaluation = the null score - so the result depends on numpy's floating-point error mode
+        from sklearn.naive_bayes import GaussianNB
+        model = GaussianNB()
     else:
         model = LogisticRegression(max_iter=50)
     U = I["utility"]
-    util = U.SklearnModelAccuracy(model)
+    util = U.SklearnModelRocAuc(model) if case.get("utility") == "rocauc" else U.SklearnModelAccuracy(model)
     if case.get("joint"):
         util = U.JointUtility(util, U.SklearnModelAccuracy(KNeighborsClassifier(1)), weights=[0.75, -0.5])
     prov = None
@@ -67,7 +90,17 @@ def build_and_score(I, case):
         from props.mcutil import RecordingRandomState
         rec = RecordingRandomState(imp.randomstate, case.get("forced"))
         imp.randomstate = rec
-    s = np.asarray(imp.fit(X, y, provenance=prov).score(Xv, yv), dtype=float)
+    LOG.append("%s/%s/%s%s n=%d m=%d" % (case["method"], case.get("utility", "accuracy"), case["model"], "/joint" if case.get("joint") else "", len(y), len(yv)))
+    g0 = global_state()
+    imp.fit(X, y, provenance=prov)
+    g1 = global_state()
+    try:
+        s = np.asarray(imp.score(Xv, yv), dtype=float)
+    finally:
+        g2 = global_state()
+        for call, d in (("fit", global_state_diff(g0, g1)), ("score", global_state_diff(g1, g2))):
+            if d:
+                STATE_CHANGES.append(dict(call=call, case=case, changed=d))
     if case["method"] == "montecarlo":
         perms = rec.perms
     return s.tobytes().hex(), perms
@@ -80,4 +113,4 @@ if __name__ == "__main__":
     I = impl.load(sys.argv[1])
     case = json.load(sys.stdin)
     h, perms = build_and_score(I, case)
-    print("RESULT " + json.dumps({"hex": h, "perms": perms, "hashseed": os.environ.get("PYTHONHASHSEED")}))
+    print("RESULT " + json.dumps({"hex": h, "perms": perms, "hashseed": os.environ.get("PYTHONHASHSEED"), "state_changes": STATE_CHANGES, "log": LOG}))
